@@ -181,6 +181,11 @@ def stateless (w : List String) : Option String :=
       | _ => "failure"
     some s!"class={cls} zone={boolStr (resolveRecordsZone ⟨false, false, false, .none⟩ false false res)}"
   | "fail" :: "l3shed" :: _ => some "unmodelled"
+  | ["fail", "l3id", _dnssec, cd, scenario, qtype] => do
+    -- whatever the dnssec switch and the outcome path, a failure is filed under the client's own question
+    let cd ← parseBool cd; let qtype ← qtype.toNat?
+    if scenario == "ok" then some "rcode=0 recorded=-"
+    else some s!"rcode=2 recorded=www.ident.test./{qtype}/1/{boolStr cd}/-"
   | ["fail", "response", kind, rd, cd, udp, dobit, codes] => do
     let rd ← parseBool rd; let cd ← parseBool cd; let udp ← udp.toNat?; let dobit ← parseBool dobit
     let codes ← (parseCsv codes).mapM (·.toNat?)
@@ -290,6 +295,13 @@ def stateful (s : Store) (w : List String) : Option (Store × String) :=
       let ecsopt := tree == ["ecsopt"]
       let req : Req := ⟨true, k.cd, if opt then some ⟨1232, true, []⟩ else if ecsopt then some ⟨1232, false, [8]⟩ else none⟩
       some (s, "hit " ++ fmtResp (response (some req)))
+  | ["wserve", n, t, c, cd, opt, now] => do
+    -- a wire-born request: the packed name is what the decoder re-spells (case kept, rooted);
+    -- served without upstream iff the shared audience has an active exact / ancestor-zone failure
+    let k ← parseQ [n, t, c, cd, "-"]; let now ← parseInt now; let opt ← parseBool opt
+    match s.lookupFailure H now k with
+    | some _ => let _ := opt; some (s, "hit upstream=0 rcode=2")
+    | none => some (s, "miss upstream=1 rcode=2")
   | "probe" :: now :: _n :: rest => do
     let now ← parseInt now
     let rec keys : Nat → List String → Option (List QKey)
